@@ -120,25 +120,25 @@ func (s *sidx) mergeParts(fileSystem fs.FileSystem, closeCh <-chan struct{}, par
 	if err != nil {
 		return nil, err
 	}
-	// Aggregate optional timestamp range from merged parts
+	// Aggregate the optional timestamp range of the merged parts. A part without a range may
+	// hold elements of any time (it is never pruned), so the merged part only gets a range when
+	// every input has one; otherwise queries with a timestamp range would lose its elements.
 	var minVal, maxVal int64
-	var hasMinTS, hasMaxTS bool
+	hasRange := len(parts) > 0
 	for i := range parts {
 		p := parts[i].p.partMetadata
-		if p.MinTimestamp != nil {
-			if !hasMinTS || *p.MinTimestamp < minVal {
-				minVal = *p.MinTimestamp
-				hasMinTS = true
-			}
+		if p.MinTimestamp == nil || p.MaxTimestamp == nil {
+			hasRange = false
+			break
 		}
-		if p.MaxTimestamp != nil {
-			if !hasMaxTS || *p.MaxTimestamp > maxVal {
-				maxVal = *p.MaxTimestamp
-				hasMaxTS = true
-			}
+		if i == 0 || *p.MinTimestamp < minVal {
+			minVal = *p.MinTimestamp
+		}
+		if i == 0 || *p.MaxTimestamp > maxVal {
+			maxVal = *p.MaxTimestamp
 		}
 	}
-	if hasMinTS && hasMaxTS {
+	if hasRange {
 		pm.MinTimestamp = &minVal
 		pm.MaxTimestamp = &maxVal
 	}
